@@ -1,7 +1,7 @@
 T = "Lean 4 theorems over a hand-written model, tied to the code by compiled-derive correspondence (mode B)"
 CLAIMS = {
  'C01': ("Lean 4 proof: first-match characterisation + iff under non-overlap (from_string.rs model); correspondence with compiled derives",
-         "lean/StrumProofs/C01.lean: parse_accepting_at (pointwise: the only candidate accepting THIS input is returned, no global non-overlap needed), parse_first_match (no overlap hypothesis), parse_iff, parse_err_iff, parse_never_disabled, fall_spec, noOverlapB_iff - for every enum definition and every byte string, "
+         "lean/StrumProofs/C01.lean: source_parse / source_candidates / source_spellings (the statement read off the attribute lists as written), parse_accepting_at (pointwise: the only candidate accepting THIS input is returned, no global non-overlap needed), parse_first_match (no overlap hypothesis), parse_iff, parse_err_iff, parse_never_disabled, fall_spec, noOverlapB_iff - for every enum definition and every byte string, "
          "no bound on variants, spellings or input length. Correspondence: the real EnumString derive on the per-variant exhaustive attribute core x enum-level dimensions with "
          "case-flip / one-edit / look-alike / whitespace / raw-identifier inputs; FromStr and TryFrom compared on every input.",
          "DESIGN.md §6 C01", ""),
@@ -36,7 +36,7 @@ CLAIMS = {
 }
 CLAIMS.update({
  'C04': ("Lean 4 proof: item table = filtered declaration list, collect = 0..N-1 via the C05 refinement, reverse, COUNT; correspondence with compiled derives",
-         "lean/StrumProofs/C04.lean: iter_table (by definition unfolding), iter_table_no_disabled, iter_collect, iter_rev, iter_count, iter_table_nodup - all definitions, no bound on the number of variants. "
+         "lean/StrumProofs/C04.lean: iter_table (by definition unfolding), source_iter (at source level: exactly the variants written without a `disabled` item, in declaration order), iter_table_no_disabled, iter_collect, iter_rev, iter_count, iter_table_nodup - all definitions, no bound on the number of variants. "
          "Correspondence: iter().collect(), rev().collect(), COUNT for enums of 0..12 variants, unit/tuple/named kinds, type/const generics, eight disabled placements.",
          "DESIGN.md §6 C04", ""),
  'C05': ("Lean 4 proof: refinement of the (idx, back_idx) machine with usize = Nat mod 2^64 (debug: panic, release: wrap) to a list deque, every history by induction; correspondence in dev and release profiles",
@@ -45,7 +45,7 @@ CLAIMS.update({
          "Correspondence: N = 0..8 (plain and disabled+generic), all histories to depth 2-3 (quick) / up to N+1 (thorough) with k in {0..N+1, MAX-1, MAX}, random 30-op histories with clones, size_hint, skip, step_by, both profiles, plus a Python reference deque.",
          "DESIGN.md §6 C05", "Partial: Send + Sync is rustc's auto-trait inference; a three-line model + a compile-time assertion (incl. T = Rc<u8>). Hypothesis 2N+1 < 2^64 (N = number of enabled variants)."),
  'C08': ("Lean 4 proof: lengths and index alignment of COUNT / VariantNames / VariantArray / EnumIter; correspondence with compiled derives",
-         "lean/StrumProofs/C08.lean: count_eq, names_len, array_spec, array_rejects_data, aligned (position i refers to the same variant in all four when nothing is disabled). "
+         "lean/StrumProofs/C08.lean: count_eq, source_count (COUNT = number of variants written without `disabled`), names_len, array_spec, array_rejects_data, aligned (position i refers to the same variant in all four when nothing is disabled). "
          "Correspondence: field-less enums of 0..12 variants x disabled placement x explicit discriminants with repr x naming attributes x style x prefix; the four observables index by index.",
          "DESIGN.md §6 C08", ""),
 })
@@ -92,7 +92,7 @@ CLAIMS.update({
 CLAIMS.update({
  'C20': ("Lean 4 proof: each rejection rule x applicable derive => reject, never panic, domain => accept, over a raw-attribute model of every derive's checks; mode-A class correspondence + mode-B rustc diagnostics",
          "lean/StrumProofs/C20.lean: rejects (one statement: every rule x every derive it applies to => reject, with the applicability matrix `applies`), validate_reject_iff, never_panics, accepts_domain, rejects_non_enum (R1), rejects_data_variant_array/_table (R2), rejects_lifetime (R3), rejects_enum_attr / rejects_variant_attr / rejects_field_default_with (R4, R8), "
-         "rejects_defaults (R5, R6), rejects_transparent_shape / rejects_default_shape_display (R6), rejects_unit_placeholder (R7), rejects_half_parse_err (R9), rejects_prop_literal (R10); F6/F7 witnesses on the pinned behaviour; lean/StrumProofs/Collect.lean: collectVariant_error_iff (get_variant_properties fails iff a single-use item is written twice), collectVariant_ok (otherwise = fold of the updates), collect_regroup / collect_swap (splitting into #[strum(..)] lists and the order of independent items are irrelevant). "
+         "rejects_defaults (R5, R6), rejects_transparent_shape / rejects_default_shape_display (R6), rejects_unit_placeholder (R7), rejects_half_parse_err (R9), rejects_prop_literal (R10); F6/F7 witnesses on the pinned behaviour; lean/StrumProofs/Collect.lean: collectVariant_error_iff (get_variant_properties fails iff a single-use item is written twice), collectVariant_ok (otherwise = fold of the updates), collect_regroup / collect_swap / collect_perm / collectEnum_perm (splitting into #[strum(..)] lists and the order of independent items are irrelevant); lean/StrumProofs/Source.lean: collectAll_ok_iff (header loop + variant loops with their occurrence state succeed iff the source is collectable and then equal the declarative reading RawSource.declared), collectVariants_error (the first offending variant is reported), readLines_eq (the driver's line-by-line reading is collectAll). "
          "Correspondence: ~1600 items (every rule x every derive x positions x within/across attributes, plus in-domain controls): mode A runs the macro's *_inner functions in-process (ok / err / panic vs validate); "
          "mode B compiles rejected and accepted items in two crates with the real derives (incl. FromRepr) and reads rustc's JSON diagnostics per item file.",
          "DESIGN.md §6 C20", "Partial: 'reported at the offending item' is checked as 'an error whose span lies in the item's file' on the sampled items; the model distinguishes accept / reject / panic only, not message wording. syn's parsing of attribute syntax is exercised, not modelled."),
